@@ -1,5 +1,6 @@
 """C20 — each feedback call is recorded once, truthfully, and rendered from its fields."""
 import copy
+import gc
 import inspect
 import itertools
 import json
@@ -311,7 +312,7 @@ def small_scope_cases():
     """every keyword mix over a reduced alphabet, one construction per session (thorough tier)"""
     out = []
     for message, mt, cmt, em, emt, cond, msg, act, parent, delay in itertools.product(
-            [None, "m"], [None, "T {x:name}", "{missing}"], [None, "C {x}"], [None, "e"], [None, "E{x}"],
+            [None, "m", ""], [None, "T {x:name}", "{missing}"], [None, "C {x}"], [None, "e"], [None, "E{x}"],
             ["default", "true", "false", "raise:KeyError"], ["default", "ret:r", "retnone", "raise:ValueError"],
             [True, False], [None, {"scalar": 3}, {"group": 0}], [False, True]):
         attrs = {}
@@ -481,7 +482,7 @@ class OracleSession(fc.Session):
             else:
                 view = self.views.get(op["target"])
             cls_attrs = (lambda name, c=view.cls: getattr(c, name, None)) if view else None
-            formatter = MAIN_FORMAT()
+            formatter = self.report.format
             exp = None
             if view is not None and (k == "handle" or not view.delay):
                 try:
@@ -555,6 +556,9 @@ class OracleSession(fc.Session):
         self.handled = {}
         self.views = {}
         obs, final = super().run()
+        if final.get("stray"):
+            self.problems.append(({"kind": "wrong-report"},
+                                  "%d objects were recorded in MAIN_REPORT although every call named another report" % final["stray"]))
         # parent groups hear about each child once per condition check, with the right flag
         heard = {}
         for g, c, a in final["childlog"]:
@@ -576,14 +580,14 @@ class OracleSession(fc.Session):
         return obs, final
 
 
-def MAIN_FORMAT():
-    return fc.MAIN_REPORT.format
-
-
-def judge_case(case):
+def judge_case(case, skipped=None):
     s = OracleSession(copy.deepcopy(case))
     s.build_classes()
     obs, final = s.run()
+    if skipped is not None:
+        skipped["oracle-could-not-judge-call"] = skipped.get("oracle-could-not-judge-call", 0) + getattr(s, "unjudged", 0)
+        skipped["constructor-raised-before-Feedback.__init__"] = skipped.get(
+            "constructor-raised-before-Feedback.__init__", 0) + sum(1 for o in obs if o.get("kind") == "noobj")
     return s.problems, obs
 
 
@@ -683,7 +687,7 @@ def correspond(rng, tier, driver):
                 "oracle table filled by the real primitives; compared: id, bool, status, raised class, message, "
                 "else/unused message, justification, title, label, parent, fields, both lists, group callbacks, class "
                 "attribute probes; non-trivial = >=2 distinct statuses or an override in the session")
-    n = 1200 if tier == "quick" else 12000
+    n = 1200 if tier == "quick" else 8000
     cases = corpus_cases()
     for i in range(n):
         cases.append(gen_case(rng, override_heavy=(i % 5 == 4)))
@@ -826,18 +830,21 @@ def search(rng, tier, broken, corr):
                     "clear) on corpus + the correspondence sessions + seeded random sessions (+ every keyword mix over a "
                     "reduced alphabet in thorough); plus every Feedback constructed while pedal grades %d real "
                     "(script, submission) pairs, judged black-box" % len(REAL_SCRIPTS),
-            "evaluations": 0, "distinct_nontrivial": 0, "samples": [], "unjudged": 0}
+            "evaluations": 0, "distinct_nontrivial": 0, "samples": [], "skipped": {"session-crashed-the-harness": 0}}
     cases = list(getattr(corr, "cases", None) or corpus_cases())
-    extra = (600 if tier == "quick" else 6000) * (3 if broken else 1)
+    extra = (600 if tier == "quick" else 4000) * (3 if broken else 1)
     for i in range(extra):
         cases.append(gen_case(rng, override_heavy=(i % 3 == 0)))
     seen = {}
     for case in cases:
         try:
-            probs, obs = judge_case(case)
+            probs, obs = judge_case(case, info["skipped"])
         except Exception as e:      # noqa: BLE001
-            info["unjudged"] += 1
+            info["skipped"]["session-crashed-the-harness"] += 1
+            info["last_harness_error"] = "%s: %s" % (type(e).__name__, e)
             continue
+        if info["evaluations"] % 400 == 399:
+            gc.collect()
         info["evaluations"] += 1
         if nontrivial(case, obs):
             info["distinct_nontrivial"] += 1
